@@ -168,6 +168,7 @@ func runC10(c *ev.Ctx) {
 	c10Faults(c)
 	c10Churn(c)
 	c10UnconfirmedFids(c)
+	c10LateReplies(c)
 }
 
 // (1) reply permutations.
@@ -842,6 +843,121 @@ func c10UnconfirmedFids(c *ev.Ctx) {
 				cc.fs.Shutdown()
 				runtime.KeepAlive(held)
 			}
+		}
+	}
+}
+
+// (6) late replies. K calls are pending when the server sends a frame the
+// client cannot accept but that leaves the connection usable; the pending calls
+// fail. The server then answers those old requests after all (late, but with
+// their own tags - a slow or confused server), while new calls are being made.
+// No new call may be handed a reply that was produced for one of the old
+// requests: every call returns the reply to its own request or an error.
+func c10LateReplies(c *ev.Ctx) {
+	r := c.Rand("c10late")
+	idx := 0
+	for _, kind := range []string{"unknown-tag", "wrong-R-type", "undecodable-body"} {
+		for rep := 0; rep < c.Sz(6, 120); rep++ {
+			idx++
+			if !c.Mine(idx) {
+				continue
+			}
+			rr := r.Fork(uint64(idx))
+			const K = 5
+			c.Begin(fmt.Sprintf("C10 late replies fault=%s rep=%d", kind, rep))
+			cc := c10Setup(c, 2*K, nil)
+			if cc == nil {
+				continue
+			}
+			base := cc.fs.NReqs()
+			calls := c10Calls(rr, 2*K)
+			res := make([]string, 2*K)
+			var wg sync.WaitGroup
+			for i := 0; i < K; i++ {
+				wg.Add(1)
+				go func(i int) { defer wg.Done(); res[i] = cc.do(i, calls[i]) }(i)
+			}
+			if o, d := cc.fs.WaitReqs(base + K); o != quiesce.CondMet {
+				hang(c, o, d, "C10:late:calls-not-sent", nil)
+				cc.fs.Shutdown()
+				continue
+			}
+			old := cc.fs.Reqs()[base : base+K]
+			victim := old[rr.Intn(K)]
+			t, _ := fakesrv.Derived(victim.Msg, 1<<16)
+			switch kind {
+			case "unknown-tag":
+				cc.fs.SendRaw(wire.Encode(wire.Rclunk, 0xFFF0))
+			case "wrong-R-type":
+				cc.fs.SendRaw(wire.Encode(wire.Rlopen, victim.Msg.Tag, wire.QID{}, u(0)))
+			case "undecodable-body":
+				if len(wire.LayoutOf(t).Fields) == 0 {
+					cc.fs.SendRaw(wire.Encode(wire.Rclunk, 0xFFF0))
+				} else {
+					cc.fs.SendRaw(wire.Frame(t, victim.Msg.Tag, []byte{1}))
+				}
+			}
+			done := make(chan struct{})
+			go func() { wg.Wait(); close(done) }()
+			det := map[string]any{"fault": kind}
+			if o, d := quiesce.Await(done, wd); o != quiesce.CondMet {
+				hang(c, o, d, "C10:late:pending-call-hangs:"+kind, det)
+				cc.fs.Shutdown()
+				continue
+			}
+			// new calls on other files; the server holds their requests until
+			// all of them have arrived, answers the OLD requests first and the
+			// new ones afterwards
+			base2 := cc.fs.NReqs()
+			var wg2 sync.WaitGroup
+			for i := K; i < 2*K; i++ {
+				wg2.Add(1)
+				go func(i int) { defer wg2.Done(); res[i] = cc.do(i, calls[i]) }(i)
+			}
+			if o, d := cc.fs.WaitReqs(base2 + K); o != quiesce.CondMet {
+				hang(c, o, d, "C10:late:new-calls-not-sent", det)
+				cc.fs.Shutdown()
+				continue
+			}
+			for _, rq := range old {
+				rt, vals := fakesrv.Derived(rq.Msg, 1<<16)
+				cc.fs.SendRaw(wire.Encode(rt, rq.Msg.Tag, vals...))
+			}
+			cc.fs.Flush()
+			for _, rq := range cc.fs.Reqs()[base2 : base2+K] {
+				rt, vals := fakesrv.Derived(rq.Msg, 1<<16)
+				cc.fs.SendRaw(wire.Encode(rt, rq.Msg.Tag, vals...))
+			}
+			cc.fs.Flush()
+			// whatever is still pending now will never be answered: close
+			quiesce.WaitUntil(func() bool { return false }, 3*time.Second)
+			cc.fs.Close()
+			done2 := make(chan struct{})
+			go func() { wg2.Wait(); close(done2) }()
+			if o, d := quiesce.Await(done2, wd); o != quiesce.CondMet {
+				hang(c, o, d, "C10:late:new-call-hangs:"+kind, det)
+				cc.fs.Shutdown()
+				continue
+			}
+			reused := 0
+			tagsOld := map[uint16]bool{}
+			for _, rq := range old {
+				tagsOld[rq.Msg.Tag] = true
+			}
+			for _, rq := range cc.fs.Reqs()[base2 : base2+K] {
+				if tagsOld[rq.Msg.Tag] {
+					reused++
+				}
+			}
+			for i := K; i < 2*K; i++ {
+				if s := res[i]; s != "" && !(len(s) > 6 && s[:6] == "error:") {
+					c.Violation("C10:late:new-call-returns-a-reply-made-for-an-earlier-failed-call:"+kind, map[string]any{"fault": kind, "what": s, "tags_reused_while_old_requests_unanswered": reused})
+					break
+				}
+			}
+			c.Case(fmt.Sprintf("late:%s:%d:reused%d", kind, rep%4, minI(reused, 1)), true)
+			c.Count("late_reply_rounds", 1)
+			cc.fs.Shutdown()
 		}
 	}
 }
